@@ -33,6 +33,11 @@ def variants():
         ("aes_softc_z",   A, ["aes_force_soft", "aes_compact"], ["zeroize"], None),
         ("aes_alt_z",     A, ["aes_force_soft"], ["zeroize"], "flip_fixslice"),
         ("aes_altc_z",    A, ["aes_force_soft", "aes_compact"], ["zeroize"], "flip_fixslice"),
+        # the same cfg combinations without any feature: cfg x feature product complete
+        ("aes_autoc",     A, ["aes_compact"], [], None),
+        ("aes_softc",     A, ["aes_force_soft", "aes_compact"], [], None),
+        ("aes_alt",       A, ["aes_force_soft"], [], "flip_fixslice"),
+        ("aes_altc",      A, ["aes_force_soft", "aes_compact"], [], "flip_fixslice"),
     ]
     K = "kuznyechik"
     v += [
@@ -41,11 +46,13 @@ def variants():
         ("kuz_soft",      K, ['kuznyechik_backend="soft"'], [], None),
         ("kuz_soft_z",    K, ['kuznyechik_backend="soft"'], ["zeroize"], None),
         ("kuz_compact_z", K, ['kuznyechik_backend="compact_soft"'], ["zeroize"], None),
+        ("kuz_compact",   K, ['kuznyechik_backend="compact_soft"'], [], None),
     ]
     v += [
         ("serpent",       "serpent", [], [], None),
         ("serpent_z",     "serpent", [], ["zeroize"], None),
         ("serpent_nu_z",  "serpent", ["serpent_no_unroll"], ["zeroize"], None),
+        ("serpent_nu",    "serpent", ["serpent_no_unroll"], [], None),
         ("blowfish",      "blowfish", [], [], None),
         ("blowfish_zb",   "blowfish", [], ["zeroize", "bcrypt"], None),
     ]
@@ -148,7 +155,7 @@ def neon_model(rel, text):
     return "\n".join(out)
 
 TRANSFORMS = {"flip_fixslice": flip_fixslice, "neon_model": neon_model}
-A64_SHADOWS = ["aes_auto", "aes_auto_z", "aes_autoc_z", "kuz", "kuz_z"]
+A64_SHADOWS = ["aes_auto", "aes_auto_z", "aes_autoc_z", "aes_autoc", "kuz", "kuz_z"]
 
 def gen_shadow(build, repo, name, rdir, cfgs, feats, transform, sub="shadows"):
     pdir = os.path.join(build, sub, name)
